@@ -63,7 +63,7 @@ theorem fromH5_toH5 (c : Utf8) (hc : c.RT) (dc : DateC δ) (hdc : dc.RT) (t : Sr
     (hh : HeaderOK t) (ax : Axis) :
     (toH5 c dc t genBy date now csr csc).bind (fun h => fromH5 c dc h ax) =
       .ok (expected t genBy (date.getD now)) := by
-  rw [toH5_written c dc t genBy date now csr csc hv hmo hms]
+  rw [toH5_written c dc t genBy date now csr csc hw hv hmo hms]
   exact fromH5_written c hc dc hdc t genBy date now csr csc hw hv hmo hms hao has hh ax
 
 /-- The three loaders differ only by their sniffing prelude: whenever `from_hdf5` succeeds on a
@@ -98,7 +98,7 @@ theorem model_holds [DecidableEq δ] (c : Utf8) (hc : c.RT) (dc : DateC δ) (hdc
     (hmo : mdDomain t.omd = true) (hms : mdDomain t.smd = true) (hao : keysNoAt t.omd) (has : keysNoAt t.smd)
     (hh : HeaderOK t) (l : Loader) :
     holds t genBy date ((toH5 c dc t genBy date now csr csc).bind (load c dc Sniff.written l)) = true := by
-  rw [toH5_written c dc t genBy date now csr csc hv hmo hms]
+  rw [toH5_written c dc t genBy date now csr csc hw hv hmo hms]
   have := fromH5_written c hc dc hdc t genBy date now csr csc hw hv hmo hms hao has hh .samp
   simp only [Except.bind, loaders_agree c dc _ _ this l]
   exact holds_expected t genBy date now hw hmo hms hh
